@@ -30,6 +30,11 @@ Rules (conservative = more aliasing, more writes):
   arguments / constant string keys as named fields); list / dict ARGUMENTS are buffers like any other argument, so
   ``choppers.sort()``, ``.append``, ``del x[k]`` on an argument is a ``write`` to it;
 * attribute reads (fields and properties) are views of the object;
+* a module-level name bound to a dict / list / set (or declared ``global``) is module state: every function that
+  touches it gets a pseudo-argument for it after its real parameters (``nreal`` … ``nargs``), reading it is a view
+  of that pseudo-argument, item assignment / ``.append`` / rebinding is a ``write`` to it, and callers inherit the
+  pseudo-arguments of their callees; the functions concerned are reported as ``global-state``; Lean's check rejects
+  any kernel whose may-write set contains a pseudo-argument;
 * calls: functions of the package use the callee's own summary — parameters it may write, parameters its result
   (and each named field of a returned record) may alias — re-checked in Lean for the callee; a method called on an
   object that is not ``self`` dispatches to EVERY class of the package that defines a method of that name (union of the
@@ -168,6 +173,28 @@ TARGETS = [
     ('io/xye.py', 'save_xye', True),
     ('io/xye.py', '_deduce_coord', False),
     ('io/xye.py', '_generate_xye_header', False),
+    # --- factories over module-level tables (module-level mutable state is a pseudo-argument)
+    ('conversion/graph/tof.py', 'elastic', True),
+    ('conversion/graph/tof.py', 'kinematic', True),
+    ('conversion/graph/tof.py', 'elastic_dspacing', True),
+    ('conversion/graph/tof.py', 'elastic_energy', True),
+    ('conversion/graph/tof.py', 'elastic_Q', True),
+    ('conversion/graph/tof.py', 'elastic_Q_vec', True),
+    ('conversion/graph/tof.py', 'elastic_hkl', True),
+    ('conversion/graph/tof.py', 'elastic_wavelength', True),
+    ('conversion/graph/tof.py', 'direct_inelastic', True),
+    ('conversion/graph/tof.py', 'indirect_inelastic', True),
+    ('conversion/graph/beamline.py', 'incident_beam', True),
+    ('conversion/graph/beamline.py', 'scattered_beam', True),
+    ('conversion/graph/beamline.py', 'two_theta', True),
+    ('conversion/graph/beamline.py', 'L1', True),
+    ('conversion/graph/beamline.py', 'L2', True),
+    ('conversion/graph/beamline.py', 'Ltotal', True),
+    ('conversion/graph/beamline.py', 'beamline', True),
+    ('core/conversions.py', 'conversion_graph', True),
+    ('atoms/__init__.py', 'Atom.for_isotope', True),
+    ('atoms/__init__.py', 'ScatteringParams.for_isotope', True),
+    ('atoms/__init__.py', '_load_scattering_params', False),
 ]
 
 MODULE_NAMES = {'uuid', 'quadratures', 'sc', 'np', 'math', 'const', 'scipp', 'numpy', 'constants', 'itertools', 'dataclasses', 'copy', 'warnings', 'enum'}
@@ -183,7 +210,7 @@ VIEW_METHODS = {'transpose', 'broadcast', 'fold', 'flatten', 'squeeze', 'rename_
                 'drop_coords', 'drop_masks', 'assign_coords', 'assign_masks', 'constituents', 'with_prefix' if False else '__none__'}
 MUTATING_METHODS = {'pop', 'append', 'update', 'clear', 'setdefault', 'extend', 'remove', 'insert', 'sort', 'reverse', 'popitem',
                     'add', 'discard', 'fill', 'resize', 'put', 'setflags'}
-PURE_METHODS = {'size', 'convert', 'cdf', 'pdf', 'group', 'bin', 'hist', 'replace', 'info', 'debug', 'warning', 'is_regular', 'isoformat', 'total_seconds', 'hex', 'encode', 'decode', 'ljust', 'rjust', 'title', 'capitalize', 'mean', 'max', 'min', 'sum', 'nansum', 'nanmean', 'all', 'any', 'issubset', 'issuperset', 'union', 'intersection',
+PURE_METHODS = {'match', 'search', 'fullmatch', 'files', 'joinpath', 'open', 'readline', 'readlines', 'read', 'close', 'rstrip', 'lstrip', 'groups', 'size', 'convert', 'cdf', 'pdf', 'group', 'bin', 'hist', 'replace', 'info', 'debug', 'warning', 'is_regular', 'isoformat', 'total_seconds', 'hex', 'encode', 'decode', 'ljust', 'rjust', 'title', 'capitalize', 'mean', 'max', 'min', 'sum', 'nansum', 'nanmean', 'all', 'any', 'issubset', 'issuperset', 'union', 'intersection',
                 'format', 'startswith', 'endswith', 'join', 'split', 'copy', 'index', 'count', 'is_edges', 'to_dict', 'lower',
                 'upper', 'strip', 'isdisjoint', 'difference', 'item', 'tolist', 'astype_copy', 'norm', 'inverse', 'underlying_size'}
 
@@ -229,6 +256,11 @@ class FnInfo:
         self.allowed = None      # sorted list of parameter indices that may be written
         self.ret_alias = None    # sorted list of parameter indices the return value may alias
         self.rets = None
+        self.nreal = len(self.params)
+        self.globals = []        # (file, name) of module-level mutable objects used, in pseudo-argument order
+        self.global_writes = set()
+        self.cached = any(d in ('lru_cache', 'cache', 'cached_property') for d in deco)
+        self.ret_container = False   # every returned value is a container created by the function (its elements may alias)
         self.ret_keys = {}       # key -> sorted parameter indices the value under that key of the returned record may alias
         self.key_vars = {}       # key -> IR variable holding that value
         self.error = None
@@ -292,6 +324,26 @@ class Translator:
                 self.trees[file] = ast.parse(f.read())
         return self.trees[file]
 
+    def module_mutables(self, file):
+        """names bound at module level to a mutable container (dict / list / set display, comprehension or constructor)"""
+        if not hasattr(self, '_mutables'):
+            self._mutables = {}
+        if file not in self._mutables:
+            out = set()
+            for st in self.tree(file).body:
+                targets, value = [], None
+                if isinstance(st, ast.Assign):
+                    targets, value = st.targets, st.value
+                elif isinstance(st, ast.AnnAssign) and st.value is not None:
+                    targets, value = [st.target], st.value
+                mutable = isinstance(value, ast.Dict | ast.List | ast.Set | ast.ListComp | ast.DictComp | ast.SetComp) or (
+                    isinstance(value, ast.Call) and isinstance(value.func, ast.Name)
+                    and value.func.id in ('dict', 'list', 'set', 'defaultdict', 'OrderedDict', 'Counter', 'deque', 'bytearray'))
+                if mutable:
+                    out |= {t.id for t in targets if isinstance(t, ast.Name) and t.id != '__all__'}
+            self._mutables[file] = out
+        return self._mutables[file]
+
     def methods(self, name):
         """all (file, Class.method) defining a method `name` in the class files"""
         if self.method_index is None:
@@ -345,11 +397,15 @@ class Translator:
         self.infos[key] = fi
         self.in_progress.add(key)
         try:
-            for _round in range(6):
+            for _round in range(10):
                 fi.assumed = False
                 created_before = set(self.infos)
+                fi.params = fi.params[:fi.nreal] + [f'<global {g[0]}:{g[1]}>' for g in fi.globals]
+                nglob = len(fi.globals)
                 b = Body(self, fi)
                 b.run()
+                if len(fi.globals) != nglob:
+                    continue        # a module-level object was met for the first time: it needs a pseudo-argument slot
                 paths = [b.path.ins]
                 rets = [b.ret_var]
                 if b.nbits > 12:
@@ -365,7 +421,9 @@ class Translator:
                 stable = (not fi.assumed) or (allowed <= set(fi.allowed) and ret_alias <= set(fi.ret_alias))
                 fi.paths, fi.rets, fi.bits = paths, rets, b.nbits
                 fi.key_vars = dict(b.key_vars)
+                fi.ret_container = bool(b.returned) and b.containers_only
                 fi.allowed = sorted(allowed | set(fi.allowed))
+                fi.global_writes = {fi.globals[j - fi.nreal] for j in fi.allowed if j >= fi.nreal}
                 fi.ret_alias = sorted(ret_alias | set(fi.ret_alias))
                 fi.ret_keys = {k: sorted(v) for k, v in ret_keys.items()}
                 if stable:
@@ -387,6 +445,25 @@ class Translator:
         finally:
             self.in_progress.discard(key)
         return fi
+
+    def resolve_module(self, file, name):
+        """file of a module of the package imported under `name` (from . import x / from ..a.b import x as name)"""
+        for st in self.tree(file).body:
+            if isinstance(st, ast.ImportFrom) and any((a.asname or a.name) == name for a in st.names):
+                orig = next(a.name for a in st.names if (a.asname or a.name) == name)
+                mod = (st.module or '').replace('.', '/')
+                if st.level == 0:
+                    if not (st.module or '').startswith('scippneutron'):
+                        continue
+                    mod = mod[len('scippneutron'):].lstrip('/')
+                d = os.path.dirname(file)
+                for _ in range(max(st.level - 1, 0)):
+                    d = os.path.dirname(d)
+                for cand in (os.path.join(d if st.level else '', mod, orig + '.py'), os.path.join(d if st.level else '', mod, orig, '__init__.py')):
+                    cand = os.path.normpath(cand)
+                    if os.path.exists(os.path.join(self.base, cand)):
+                        return cand
+        return None
 
     def resolve_callee(self, file, name):
         """a module-level function of the same file, or one imported from the package"""
@@ -440,9 +517,11 @@ class Body:
         self.nbits = 0
         self.site_bits = {}
         self.path = Path(len(fi.params))
+        self.declared_global = set()
         self.returned = []
         self.returned_keys = {}      # key -> vars (only while every returned value is a record with named fields)
         self.records_only = True
+        self.containers_only = True
         self.key_vars = {}
         self.ret_var = None
 
@@ -504,6 +583,16 @@ class Body:
                 p.names[name] = v
 
     # ---- helpers ------------------------------------------------------------------------------------
+    def global_var(self, p, key):
+        """the pseudo-argument standing for module-level mutable object `key` = (file, name)"""
+        if key not in self.fi.globals:
+            self.fi.globals.append(key)
+            return self.fresh(p)        # this round only discovers it; the function is translated again
+        idx = self.fi.nreal + self.fi.globals.index(key)
+        if idx >= len(self.fi.params):
+            return self.fresh(p)
+        return idx
+
     def new(self, p):
         v = p.next
         p.next += 1
@@ -527,11 +616,10 @@ class Body:
         return [v]
 
     def write(self, p, v):
-        if v in p.fields:
-            f = p.fields[v]
-            self.write(p, f['data'] if 'data' in f else f['*']) if ('data' in f or '*' in f) else p.ins.append(('write', v))
+        if v in p.fields and 'data' in p.fields[v]:
+            self.write(p, p.fields[v]['data'])      # in-place arithmetic on a data array writes its data buffer
         else:
-            p.ins.append(('write', v))
+            p.ins.append(('write', v))              # a plain container (or buffer) is written itself, not its elements
 
     def bit(self, node):
         key = (node.lineno, node.col_offset)
@@ -574,12 +662,17 @@ class Body:
             if not isinstance(st.value, ast.Constant):
                 self.expr(st.value, p)
             return
-        if isinstance(st, ast.Pass | ast.Import | ast.ImportFrom | ast.Assert | ast.Global | ast.Nonlocal):
+        if isinstance(st, ast.Global):
+            self.declared_global |= set(st.names)
+            return
+        if isinstance(st, ast.Pass | ast.Import | ast.ImportFrom | ast.Assert | ast.Nonlocal):
             return
         if isinstance(st, ast.Return):
             if st.value is not None:
                 v = self.expr(st.value, p)
                 self.returned += self.expand(p, v)
+                if v not in p.fields:
+                    self.containers_only = False
                 named = {k: x for k, x in p.fields.get(v, {}).items() if k not in ('*',)}
                 if v in p.fields and '*' not in p.fields[v] and named:
                     for k, x in named.items():
@@ -674,6 +767,9 @@ class Body:
 
     def assign(self, t, v, p):
         if isinstance(t, ast.Name):
+            if t.id in self.declared_global:        # rebinding a module variable: a write to module state
+                p.ins.append(('write', self.global_var(p, (self.fi.file, t.id))))
+                return
             p.names[t.id] = v
         elif isinstance(t, ast.Tuple | ast.List):
             for e in t.elts:
@@ -702,7 +798,9 @@ class Body:
         if isinstance(e, ast.Name):
             if e.id in p.names:
                 return p.names[e.id]
-            return self.fresh(p)       # module-level object / builtin constant
+            if e.id in self.tr.module_mutables(self.fi.file) or e.id in self.declared_global:
+                return self.global_var(p, (self.fi.file, e.id))
+            return self.fresh(p)       # module-level function / class / constant, builtin
         if isinstance(e, ast.Constant):
             return self.fresh(p)
         if isinstance(e, ast.JoinedStr):
@@ -876,6 +974,39 @@ class Body:
                 return self.view(p, allargs)
             r = finish_out()
             return r if r is not None else self.fresh(p)
+        # ---- a function of another module of the package, called through the module: `beamline.beamline(...)`
+        if isinstance(f, ast.Attribute) and isinstance(f.value, ast.Name) and f.value.id not in p.names:
+            cnode, _ = self.tr.find(self.fi.file, f.value.id)
+            if isinstance(cnode, ast.FunctionDef) is False and any(
+                    isinstance(n, ast.ClassDef) and n.name == f.value.id for n in self.tr.tree(self.fi.file).body):
+                mnode, _ = self.tr.find(self.fi.file, f'{f.value.id}.{f.attr}')
+                if mnode is not None:               # Class.method(...) of a class of this file (static / class method)
+                    callee = self.tr.info(self.fi.file, f'{f.value.id}.{f.attr}')
+                    if callee.error is not None:
+                        raise Unsupported(f'calls {f.value.id}.{f.attr}, which is untranslated ({callee.error})')
+                    lead = [] if callee.is_static else [(None, self.fresh(p))]
+                    return self.apply_callees([callee], lead + argvars, p)
+        if isinstance(f, ast.Attribute) and isinstance(f.value, ast.Attribute) and isinstance(f.value.value, ast.Name) \
+                and f.value.value.id not in p.names:
+            pkg = self.tr.resolve_module(self.fi.file, f.value.value.id)
+            if pkg is not None and pkg.endswith('__init__.py'):
+                modfile = os.path.join(os.path.dirname(pkg), f.value.attr + '.py')
+                if os.path.exists(os.path.join(self.tr.base, modfile)):
+                    node, _ = self.tr.find(modfile, f.attr)
+                    if node is not None:
+                        callee = self.tr.info(modfile, f.attr)
+                        if callee.error is not None:
+                            raise Unsupported(f'calls {f.value.attr}.{f.attr}, which is untranslated ({callee.error})')
+                        return self.apply_callees([callee], argvars, p)
+        if isinstance(f, ast.Attribute) and isinstance(f.value, ast.Name) and f.value.id not in p.names:
+            modfile = self.tr.resolve_module(self.fi.file, f.value.id)
+            if modfile is not None:
+                node, _ = self.tr.find(modfile, f.attr)
+                if node is not None:
+                    callee = self.tr.info(modfile, f.attr)
+                    if callee.error is not None:
+                        raise Unsupported(f'calls {f.value.id}.{f.attr}, which is untranslated ({callee.error})')
+                    return self.apply_callees([callee], argvars, p)
         # ---- methods
         if isinstance(f, ast.Attribute):
             base = self.expr(f.value, p)
@@ -1083,9 +1214,11 @@ class Body:
                     bound.setdefault(params.index(callee.kwarg), []).append(v)
                 else:
                     extra.append(v)
-            for v in extra:                     # unpacked arguments may land in any parameter
-                for j in range(len(params)):
+            for v in extra:                     # unpacked arguments may land in any (real) parameter
+                for j in range(callee.nreal):
                     bound.setdefault(j, []).append(v)
+            for gi, gkey in enumerate(callee.globals):      # module state used by the callee is module state here too
+                bound.setdefault(callee.nreal + gi, []).append(self.global_var(p, gkey))
             for j in callee.allowed or []:
                 written += bound.get(j, [])
             for j in callee.ret_alias or []:
@@ -1094,6 +1227,10 @@ class Body:
         for v in dict.fromkeys(written):
             self.write(p, v)
         flat = self.view(p, [y for v in dict.fromkeys(aliased) for y in self.expand(p, v)])
+        if callees and all(c.ret_container for c in callees) and not (len(callees) == 1 and callees[0].ret_keys):
+            out = self.fresh(p)             # a container made by the callee; what it holds may alias the arguments
+            p.fields[out] = {'*': flat}
+            return out
         if len(callees) == 1 and callees[0].ret_keys:
             callee = callees[0]
             out = self.fresh(p)
@@ -1152,7 +1289,7 @@ def render(repo):
             qn = f'{fi.file}:{fi.qual}' + (f' path {k}' if len(fi.paths) > 1 else '')
             out.append(f'/-- `{qn}` ({", ".join(fi.params)}) -/')
             out.append(f'def {nm} : Kernel :=')
-            out.append(f'  {{ name := [{", ".join(str(b) for b in qn.encode())}], nargs := {len(fi.params)}, bits := {fi.bits},')
+            out.append(f'  {{ name := [{", ".join(str(b) for b in qn.encode())}], nargs := {len(fi.params)}, nreal := {fi.nreal}, bits := {fi.bits},')
             out.append(f'    allowed := [{", ".join(str(j) for j in fi.allowed)}], isPublic := {"true" if fi.public else "false"},')
             ret = fi.rets[k]
             rets = [] if ret is None else [(ret, fi.ret_alias)]
@@ -1185,6 +1322,8 @@ if __name__ == '__main__':
     repo = sys.argv[1] if len(sys.argv) > 1 else '/repo'
     done, failed = analyse(repo)
     for fi in done:
+        if fi.globals or fi.cached:
+            print(f'GLOBAL-STATE {fi.file}:{fi.qual} uses {fi.globals} writes {sorted(fi.global_writes)} lru_cache={fi.cached}')
         print(f'OK   {fi.file}:{fi.qual} paths={len(fi.paths)} bits={fi.bits} allowed={fi.allowed} ret_alias={fi.ret_alias} public={fi.public} '
               f'instrs={sum(len(p) for p in fi.paths)}')
     for f in failed:
